@@ -270,8 +270,10 @@ int fp_smb_basic(const fp_t a) {
 
 #if FP_SMB == BINAR || !defined(STRIP)
 
+/* Left shift of the double word (H, L) by 0 <= I <= RLC_DIG bits, high word. */
 #define RLC_LSH(H, L, I)													\
-		(H << I) | (L & -(I != 0)) >> ((RLC_DIG - I) & (RLC_DIG - 1))
+		(((H << (I & (RLC_DIG - 1))) & -(dig_t)(I != RLC_DIG)) |			\
+		(L & -(dig_t)(I != 0)) >> ((RLC_DIG - I) & (RLC_DIG - 1)))
 
 int fp_smb_binar(const fp_t a) {
 	const size_t s = RLC_DIG - 2;
